@@ -208,7 +208,7 @@ class World:
     """one execution"""
 
     def __init__(self, prefix, cpu_count, wake_default=False, max_idle_wakes=None,
-                 clock_jump=None, sigterm_ignored=False):
+                 clock_jump=None, sigterm_ignored=False, tick_per_path=0.0):
         self.prefix = list(prefix)
         self.choices = []
         self.noptions = []
@@ -239,6 +239,10 @@ class World:
         # environment: the calling process ignores (or handles without exiting) SIGTERM and its
         # forked workers inherit that; SIGKILL cannot be ignored
         self.sigterm_ignored = sigterm_ignored
+        # work takes time: every dependency path the search enumerates in the poller's own
+        # thread (single-process search) advances the clock by this much
+        self.tick_per_path = tick_per_path
+        self.paths_enumerated = 0
         self.jumped = False
         self.queries_after_jump = 0
 
@@ -384,6 +388,33 @@ class World:
         return probs
 
 
+class _Proxy:
+    def __init__(self, target, overrides):
+        self._t, self._o = target, overrides
+
+    def __getattr__(self, name):
+        if name in self._o:
+            return self._o[name]
+        return getattr(self._t, name)
+
+
+def _ticking_nx(world, nx):
+    """networkx as kernel_dg sees it, with all_simple_paths advancing the virtual clock per path
+    (only in the poller's own thread)"""
+    real = nx.algorithms.simple_paths.all_simple_paths
+
+    def all_simple_paths(*a, **kw):
+        for p in real(*a, **kw):
+            if world.current is None:
+                world.now += world.tick_per_path
+                world.paths_enumerated += 1
+            yield p
+
+    sp = _Proxy(nx.algorithms.simple_paths, {"all_simple_paths": all_simple_paths})
+    alg = _Proxy(nx.algorithms, {"simple_paths": sp, "all_simple_paths": all_simple_paths})
+    return _Proxy(nx, {"algorithms": alg, "all_simple_paths": all_simple_paths})
+
+
 def install(world, kd):
     """patch module attributes of osaca.semantics.kernel_dg; returns an undo function"""
     # whichever of these names the module under test imported is replaced (a rewrite of the
@@ -402,6 +433,9 @@ def install(world, kd):
         if q in saved:
             setattr(kd, q, lambda *a, **kw: VQueue(world))
     kd.cpu_count = lambda: world.cpu_count
+    if world.tick_per_path and hasattr(kd, "nx"):
+        saved["nx"] = kd.nx
+        kd.nx = _ticking_nx(world, saved["nx"])
     kd.time = types.SimpleNamespace(time=world.time, sleep=world.sleep,
                                     perf_counter=world.time, monotonic=world.time)
     if "os" in saved:
